@@ -76,6 +76,9 @@ type AOp struct {
 	Node int    `json:"node,omitempty"`
 	// swap: Node leaves and Node2 joins in one and the same snapshot
 	Node2 int `json:"node2,omitempty"`
+	// slowjoin: bit i set = the i-th current member hears of the join at once, otherwise only after
+	// the activation in the middle of the op
+	Mask int `json:"mask,omitempty"`
 }
 
 type ACase struct {
@@ -218,6 +221,71 @@ func runAct(c ACase) (map[string]int, error) {
 		}
 		return nil
 	}
+	doActivate := func(what string, via int, kind string, id int, selIdx int, view []int) error {
+		key := fmt.Sprintf("%s/%d", kind, id)
+		var capable []int
+		for _, i := range view {
+			for _, k := range nodeKinds[i] {
+				if k == kind {
+					capable = append(capable, i)
+				}
+			}
+		}
+		chosen := ""
+		called := 0
+		sel := func(d cluster.ActivationDetails) *cluster.Member {
+			called++
+			ms := append([]*cluster.Member(nil), d.Members...)
+			sort.Slice(ms, func(a, b int) bool { return ms[a].ID < ms[b].ID })
+			if len(ms) == 0 {
+				return nil
+			}
+			m := ms[((selIdx%len(ms))+len(ms))%len(ms)]
+			chosen = m.ID
+			return m
+		}
+		pid := cls[via].Activate(kind, cluster.NewActivationConfig().WithID(fmt.Sprint(id)).WithSelectMemberFunc(sel))
+		switch {
+		case model[key] != nil:
+			feat["activate-duplicate"]++
+			if pid != nil {
+				return fmt.Errorf("%s: the id is already active as %v, yet Activate returned %v", what, model[key], pid)
+			}
+		case len(capable) == 0:
+			feat["activate-no-capable-member"]++
+			if pid != nil {
+				return fmt.Errorf("%s: no member advertises %q, yet Activate returned %v", what, kind, pid)
+			}
+		default:
+			if pid == nil {
+				return fmt.Errorf("%s: members %v advertise %q and the id is free, yet Activate returned nil (select function called %d times)", what, capable, kind, called)
+			}
+			want := capable[((selIdx%len(capable))+len(capable))%len(capable)]
+			if chosen != fmt.Sprintf("n%d", want) {
+				return fmt.Errorf("%s: the select function was offered a member list from which it chose %q; the capable members are %v (want n%d)", what, chosen, capable, want)
+			}
+			if pid.Address != addr(want) || pid.ID != key {
+				return fmt.Errorf("%s: Activate returned %v, want %s/%s (the member the select function returned)", what, pid, addr(want), key)
+			}
+			nspawns++
+			w.mu.Lock()
+			last := ""
+			if len(w.spawns) > 0 {
+				last = w.spawns[len(w.spawns)-1]
+			}
+			w.mu.Unlock()
+			if last != fmt.Sprintf("%d:%s", want, key) {
+				return fmt.Errorf("%s: the actor was spawned as %q, want on node %d", what, last, want)
+			}
+			model[key] = pid
+			if want != via {
+				feat["remote-activation"]++
+			} else {
+				feat["local-activation"]++
+			}
+		}
+		return nil
+	}
 	for oi, op := range c.Ops {
 		jl := joinedList()
 		via := jl[((op.Via%len(jl))+len(jl))%len(jl)]
@@ -229,66 +297,8 @@ func runAct(c ACase) (map[string]int, error) {
 		what := fmt.Sprintf("op %d (%s %s via n%d)", oi, op.K, key, via)
 		switch op.K {
 		case "activate":
-			var capable []int
-			for _, i := range jl {
-				for _, k := range nodeKinds[i] {
-					if k == kind {
-						capable = append(capable, i)
-					}
-				}
-			}
-			chosen := ""
-			called := 0
-			sel := func(d cluster.ActivationDetails) *cluster.Member {
-				called++
-				ms := append([]*cluster.Member(nil), d.Members...)
-				sort.Slice(ms, func(a, b int) bool { return ms[a].ID < ms[b].ID })
-				if len(ms) == 0 {
-					return nil
-				}
-				m := ms[((op.Sel%len(ms))+len(ms))%len(ms)]
-				chosen = m.ID
-				return m
-			}
-			pid := cls[via].Activate(kind, cluster.NewActivationConfig().WithID(fmt.Sprint(op.ID)).WithSelectMemberFunc(sel))
-			switch {
-			case model[key] != nil:
-				feat["activate-duplicate"]++
-				if pid != nil {
-					return nil, fmt.Errorf("%s: the id is already active as %v, yet Activate returned %v", what, model[key], pid)
-				}
-			case len(capable) == 0:
-				feat["activate-no-capable-member"]++
-				if pid != nil {
-					return nil, fmt.Errorf("%s: no member advertises %q, yet Activate returned %v", what, kind, pid)
-				}
-			default:
-				if pid == nil {
-					return nil, fmt.Errorf("%s: members %v advertise %q and the id is free, yet Activate returned nil (select function called %d times)", what, capable, kind, called)
-				}
-				want := capable[((op.Sel%len(capable))+len(capable))%len(capable)]
-				if chosen != fmt.Sprintf("n%d", want) {
-					return nil, fmt.Errorf("%s: the select function was offered a member list from which it chose %q; the capable members are %v (want n%d)", what, chosen, capable, want)
-				}
-				if pid.Address != addr(want) || pid.ID != key {
-					return nil, fmt.Errorf("%s: Activate returned %v, want %s/%s (the member the select function returned)", what, pid, addr(want), key)
-				}
-				nspawns++
-				w.mu.Lock()
-				last := ""
-				if len(w.spawns) > 0 {
-					last = w.spawns[len(w.spawns)-1]
-				}
-				w.mu.Unlock()
-				if last != fmt.Sprintf("%d:%s", want, key) {
-					return nil, fmt.Errorf("%s: the actor was spawned as %q, want on node %d", what, last, want)
-				}
-				model[key] = pid
-				if want != via {
-					feat["remote-activation"]++
-				} else {
-					feat["local-activation"]++
-				}
+			if err := doActivate(what, via, kind, op.ID, op.Sel, jl); err != nil {
+				return nil, err
 			}
 		case "deactivate":
 			pid := model[key]
@@ -426,6 +436,54 @@ func runAct(c ACase) (map[string]int, error) {
 			}
 			feat["join"]++
 			feat["join-with-lagging-view"]++
+		case "slowjoin":
+			// A node joins and the news travels at different speeds: the joiner and SOME members learn it
+			// now, the others later; in between one of the late ones activates an actor (it cannot tell the
+			// joiner, whom it does not know yet).  When it finally learns of the joiner it hands over
+			// everything it knows - that is how "a member that joins later learns all active actors".
+			if joined[op.Node] || gone[op.Node] || len(jl) < 2 {
+				continue
+			}
+			var early, late []int
+			for bi, n := range jl {
+				if op.Mask>>uint(bi)&1 == 1 {
+					early = append(early, n)
+				} else {
+					late = append(late, n)
+				}
+			}
+			if len(early) == 0 || len(late) == 0 {
+				continue
+			}
+			x := op.Node
+			joined[x] = true
+			var full []*cluster.Member
+			for _, i := range joinedList() {
+				full = append(full, cls[i].Member())
+			}
+			for _, i := range append([]int{x}, early...) {
+				cls[i].Engine().Send(cls[i].PID(), &cluster.Members{Members: full})
+			}
+			for _, i := range append([]int{x}, early...) {
+				cls[i].Members()
+			}
+			cls[x].Members() // the early members' topologies have arrived at the joiner
+			a := late[((op.Via%len(late))+len(late))%len(late)]
+			if err := doActivate(fmt.Sprintf("op %d (slowjoin of n%d: %s activated via n%d, which has not heard of the joiner yet)", oi, x, key, a), a, kind, op.ID, op.Sel, jl); err != nil {
+				return nil, err
+			}
+			for _, i := range jl {
+				cls[i].Members() // the Activation broadcast has been processed by the members a knows
+			}
+			for _, i := range late {
+				cls[i].Engine().Send(cls[i].PID(), &cluster.Members{Members: full})
+			}
+			for _, i := range joinedList() {
+				cls[i].Members()
+			}
+			cls[x].Members()
+			feat["join"]++
+			feat["join-heard-late-by-some-members"]++
 		case "swap":
 			// one snapshot in which a member has left AND another has joined (what a polling provider
 			// reports when both happened between two polls)
@@ -472,7 +530,7 @@ func genAct(t *rapid.T) ACase {
 	}
 	n := rapid.IntRange(1, 14).Draw(t, "ops")
 	for i := 0; i < n; i++ {
-		op := AOp{K: rapid.SampledFrom([]string{"activate", "activate", "activate", "activate", "deactivate", "cspawn", "join", "lagjoin", "leave", "swap"}).Draw(t, "k")}
+		op := AOp{K: rapid.SampledFrom([]string{"activate", "activate", "activate", "activate", "deactivate", "cspawn", "join", "lagjoin", "slowjoin", "leave", "swap"}).Draw(t, "k")}
 		op.Via = rapid.IntRange(0, 3).Draw(t, "via")
 		switch op.K {
 		case "activate", "deactivate":
@@ -483,6 +541,12 @@ func genAct(t *rapid.T) ACase {
 			op.ID = rapid.IntRange(0, 2).Draw(t, "id")
 		case "join", "leave", "lagjoin":
 			op.Node = rapid.IntRange(0, 3).Draw(t, "node")
+		case "slowjoin":
+			op.Node = rapid.IntRange(0, 3).Draw(t, "node")
+			op.Mask = rapid.IntRange(1, 6).Draw(t, "mask")
+			op.Kind = rapid.SampledFrom([]int{0, 0, 1, 1, 2}).Draw(t, "kind")
+			op.ID = rapid.IntRange(0, 2).Draw(t, "id")
+			op.Sel = rapid.IntRange(0, 3).Draw(t, "sel")
 		case "swap":
 			op.Node = rapid.IntRange(0, 3).Draw(t, "node")
 			op.Node2 = rapid.IntRange(0, 3).Draw(t, "node2")
